@@ -125,14 +125,36 @@ class SA:
         return kind_of(self.data)
 
     # numpy must never silently convert an SA -------------------------------------------
-    def __array__(self, *a, **k):
+    def is_concrete(self):
+        return not any(isinstance(v, (Sc, SymBool, SA)) for v in self.data.ravel())
+
+    def to_numpy(self):
+        k = self.kind
+        return _np.array(self.data.tolist(), dtype={"c": complex, "b": bool}.get(k, float)).reshape(self.data.shape)
+
+    def __array__(self, dtype=None, copy=None):
+        # an SA that holds only plain numbers (e.g. the result of np.ones in a patched module) may
+        # cross into unpatched code; anything symbolic must never be converted silently
+        if self.is_concrete():
+            a = self.to_numpy()
+            return a.astype(dtype) if dtype is not None else a
         raise Unsupported("implicit conversion of a symbolic array to numpy.ndarray")
 
     def __array_function__(self, func, types_, args, kwargs):
         name = func.__name__
-        if name in SHIMS:
+
+        def conc(x):
+            if isinstance(x, SA):
+                if not x.is_concrete():
+                    raise Unsupported(f"numpy.{name} called on a symbolic array from unpatched code")
+                return x.to_numpy()
+            if isinstance(x, (list, tuple)):
+                return type(x)(conc(e) for e in x)
+            return x
+
+        if name in SHIMS and not all(a.is_concrete() for a in args if isinstance(a, SA)):
             return SHIMS[name](*args, **kwargs)
-        raise Unsupported(f"numpy.{name} called on a symbolic array from unpatched code")
+        return func(*[conc(a) for a in args], **{k: conc(v) for k, v in kwargs.items()})
 
     # shape protocol -----------------------------------------------------------------------
     @property
@@ -174,13 +196,19 @@ class SA:
         od = _d(o)
         k = "c" if (self._kind == "c" or (isinstance(o, SA) and o._kind == "c") or isinstance(od, (complex, _np.complexfloating))
                     or (isinstance(od, _np.ndarray) and od.dtype != object and _np.iscomplexobj(od))) else None
+        def g(a, b):
+            # plain numbers stay plain (an SA of plain numbers may cross into unpatched code)
+            if not isinstance(a, (Sc, SymBool)) and not isinstance(b, (Sc, SymBool)):
+                return f(a, b)
+            return f(_sc(a), b)
+
         if isinstance(od, (Sc, SymBool)):
             return SA(_np.frompyfunc(lambda a: f(_sc(a), od), 1, 1)(self.data), k)
         if isinstance(od, (list, tuple)):
             od = _np.asarray(od, dtype=object)
         if isinstance(od, _np.ndarray):
-            return SA(_np.frompyfunc(lambda a, b: f(_sc(a), b), 2, 1)(self.data, od), k)
-        return SA(_np.frompyfunc(lambda a: f(_sc(a), od), 1, 1)(self.data), k)
+            return SA(_np.frompyfunc(g, 2, 1)(self.data, od), k)
+        return SA(_np.frompyfunc(lambda a: g(a, od), 1, 1)(self.data), k)
 
     def __add__(s, o):
         return s._bin(o, lambda a, b: a + b)
